@@ -252,11 +252,140 @@ def _set_config(ctx, prog):
             ctx.undecidable("C18.2", apps[0], f"set: test separating int "
                             f"from float tokens not recognised: "
                             f"{[fmt(c) for c in deciding]}")
-    ctx.ob("C18.2", f, ok,
-           "set: numeric tokens become int (integral) or float, others stay "
-           "strings" if ok else
-           f"set: token conversion yields only {sorted(kinds)}",
-           key="C18.2:set-number-types")
+    pv, pwhy = _probe_verdict(prog, "set_config")
+    if pv is False:
+        ctx.ob("C18.2", f, False, pwhy, key="C18.2:set-number-types")
+    elif not ok and pv is True:
+        ctx.ob("C18.2", f, True,
+               "set: sample tokens (integral, fractional, exponent, signed, "
+               "zero, words) are stored as int / float / str by their "
+               "numeric value (evaluated through the helpers)",
+               key="C18.2:set-number-types")
+    elif not ok and pv is None and not ({"int", "float", "str"} <= kinds):
+        ctx.undecidable("C18.2", f, f"set: token conversion not recognised "
+                        f"({pwhy})")
+    else:
+        ctx.ob("C18.2", f, ok,
+               "set: numeric tokens become int (integral) or float, others "
+               "stay strings" if ok else
+               f"set: token conversion yields only {sorted(kinds)}",
+               key="C18.2:set-number-types")
+
+
+TOKEN_SAMPLES = (("abc", "abc"), ("2.5", 2.5), ("3", 3), ("3.0", 3),
+                 ("1e3", 1000), ("-4", -4), ("-0.5", -0.5), ("1e-3", 1e-3),
+                 ("1.4036E9", 1403600000), (".5", 0.5), ("x1", "x1"),
+                 ("0", 0), ("0.0", 0), ("00", 0))
+_PROBES = {}
+
+
+def _token_probe(prog, fname: str):
+    """What does `set` / `generate` store for a value token?  The function
+    is interpreted with the small helpers of main_config looked through; the
+    stored alternatives and their conditions are then evaluated for sample
+    tokens (lib.const_eval; a try around float(token) raises exactly for the
+    non-numeric samples).  {token: [stored values]} — None for a token where
+    an alternative cannot be evaluated — or None if the token is not found."""
+    key = (id(prog), fname)
+    if key in _PROBES:
+        return _PROBES[key]
+    from ..lib import const_eval, _NoValue
+    ENTRY = ("set_config", "generate", "main", "merge_json_union", "show",
+             "finalize_values", "reset", "log_info_dict_json")
+    g = prog.func(MC + fname)
+    it = Interp(prog, inline=lambda f: f.module.name == "evo.main_config"
+                and f.cls is None and f.name not in ENTRY, max_depth=4)
+    r = it.run(g)
+    alts = []
+
+    def alternatives(t: T, cond: T):
+        if t.op == "ite":
+            yield from alternatives(t.args[1], tm.mk_and(cond, t.args[0]))
+            yield from alternatives(t.args[2],
+                                    tm.mk_and(cond, tm.mk_not(t.args[0])))
+        else:
+            yield t, cond
+    for e in r.of_kind("call"):
+        if e.data.get("mutates_recv") and e.data["name"] == ".append" and \
+                e.data["args"]:
+            alts.extend(alternatives(e.data["args"][0], e.live))
+    for e in r.of_kind("setitem"):
+        if e.depth == 0:
+            for x in e.data["value"].walk():
+                if x.op == "comp" and x.args[0] == "list":
+                    alts.extend(alternatives(x.args[1], tm.mk_and(
+                        e.live, *x.args[3])))
+    floats = [e for e in r.calls("builtins.float") if e.data["args"]]
+    leaves = [a for a, _ in alts]
+    cands = []
+    for e in floats:
+        v = e.data["args"][0]
+        if any(v is l for l in leaves) and not any(v is c for c in cands):
+            cands.append(v)
+    if len(cands) != 1:
+        _PROBES[key] = None
+        return None
+    V = cands[0]
+    tids = {tid for e in floats if e.data["args"][0] is V
+            for tid, _ in e.tries}
+    out = {}
+    for tok, _ in TOKEN_SAMPLES:
+        try:
+            float(tok)
+            numeric = True
+        except ValueError:
+            numeric = False
+
+        def assign(a: T):
+            if a.op == "exc":
+                return (not numeric) if a.args[1] in tids else None
+            if a.op == "iter":
+                return True
+            if not any(x is V for x in a.walk()):
+                return None
+            try:
+                return bool(const_eval(tm.deep_select(a, assign_exc),
+                                       {V: tok}))
+            except _NoValue:
+                return None
+
+        def assign_exc(a: T):
+            if a.op == "exc" and a.args[1] in tids:
+                return not numeric
+            return None
+        vals = []
+        for a, cond in alts:
+            if not any(x is V for x in a.walk()) and not any(
+                    x is V for x in cond.walk()):
+                continue
+            if tm.fold(cond, assign) is False:
+                continue
+            try:
+                vals.append(const_eval(tm.deep_select(a, assign), {V: tok}))
+            except _NoValue:
+                vals = None
+                break
+        out[tok] = vals
+    _PROBES[key] = out
+    return out
+
+
+def _probe_verdict(prog, fname: str):
+    """(True, '') if every sample token is stored as the number / string it
+    denotes; (False, why) for a definite deviation; (None, why) otherwise"""
+    pr = _token_probe(prog, fname)
+    if pr is None:
+        return None, "value token not identified"
+    und = [t for t, v in pr.items() if not v]
+    for tok, want in TOKEN_SAMPLES:
+        for got in pr.get(tok) or ():
+            if type(got) is not type(want) or got != want:
+                return False, (f"{fname}: the token {tok!r} is stored as "
+                               f"{got!r} ({type(got).__name__}), expected "
+                               f"{want!r} ({type(want).__name__})")
+    if und:
+        return None, f"samples not evaluated: {und}"
+    return True, ""
 
 
 def _is_number(ctx, prog):
@@ -266,6 +395,24 @@ def _is_number(ctx, prog):
     the arguments' therefore needs is_number to be "float() accepts it":
     decided by the conversion itself, not by the spelling of the token
     (1e-3, 1.4036E9, .5 are floats for argparse)."""
+    if prog.functions.get(MC + "is_number") is None:
+        # the test was folded into another helper (a parse that returns the
+        # value or None ...): what counts is that tokens float() accepts are
+        # stored as numbers by both commands — decided on sample tokens
+        for fname in ("set_config", "generate"):
+            pv, pwhy = _probe_verdict(prog, fname)
+            site = prog.func(MC + fname)
+            if pv is None:
+                ctx.undecidable("C18.2", site, f"is_number is gone and the "
+                                f"token handling of {fname} is not decided "
+                                f"({pwhy})")
+            else:
+                ctx.ob("C18.2", site, pv,
+                       f"{fname}: every sample token float() accepts (1e-3, "
+                       f"1.4036E9, .5, ...) is stored as a number, words "
+                       f"stay strings" if pv else pwhy,
+                       key="C18.2:is-number")
+        return
     f = prog.func(MC + "is_number")
     tok = tm.param(f.params[0])
     r = Interp(prog).run(f)
@@ -1035,12 +1182,7 @@ def _merge_config(ctx, prog):
            key="C18.6:no-write")
 
 
-def _generate(ctx, prog):
-    g = prog.func(MC + "generate")
-    inl = {"is_option", "to_number"}
-    it = Interp(prog, inline=lambda f: f.name in inl and
-                f.module.name == "evo.main_config", max_depth=2)
-    r = it.run(g)
+def _generate_numbers(ctx, prog, g, r):
     # (a) number conversion
     apps = [e for e in r.of_kind("call") if e.data.get("mutates_recv") and
             e.data["name"] == ".append"]
@@ -1052,7 +1194,15 @@ def _generate(ctx, prog):
                  for x in e.data["value"].walk()
                  if x.op == "comp" and x.args[0] == "list" and any(
                      is_call_to(y, MC + "is_number") for y in x.args[1].walk())]
-        ctx.require(bool(comps), "generate: value collection not found")
+        if not comps:
+            pv, pwhy = _probe_verdict(prog, "generate")
+            ctx.require(pv is not None, f"generate: value collection not "
+                        f"found ({pwhy})")
+            ctx.ob("C18.7", g, pv,
+                   "generate: sample tokens are stored as int / float / str "
+                   "by their numeric value" if pv else pwhy,
+                   key="C18.7:int-tokens")
+            return
         v = comps[0].args[1]
         apps = [e for e in r.of_kind("setitem") if e.depth == 0]
     num_alts = []
@@ -1097,8 +1247,24 @@ def _generate(ctx, prog):
                "generate: integral tokens become int, others float, decided "
                "on the numeric value", key="C18.7:int-tokens")
     else:
-        ctx.undecidable("C18.7", apps[0], f"number conversion idiom not "
-                        f"recognised: {fmt(v)}")
+        pv, pwhy = _probe_verdict(prog, "generate")
+        if pv is None:
+            ctx.undecidable("C18.7", apps[0], f"number conversion idiom not "
+                            f"recognised: {fmt(v)} ({pwhy})")
+        else:
+            ctx.ob("C18.7", apps[0], pv,
+                   "generate: sample tokens are stored as int / float / str "
+                   "by their numeric value" if pv else pwhy,
+                   key="C18.7:int-tokens")
+
+
+def _generate(ctx, prog):
+    g = prog.func(MC + "generate")
+    inl = {"is_option", "to_number"}
+    it = Interp(prog, inline=lambda f: f.name in inl and
+                f.module.name == "evo.main_config", max_depth=2)
+    r = it.run(g)
+    _generate_numbers(ctx, prog, g, r)
     # (b) token classification: a token counts as an option iff it starts
     # with '-' AND is not a number — as a truth table over the two atoms of
     # each token, at every decision generate() takes
@@ -1120,8 +1286,13 @@ def _generate(ctx, prog):
                 "(unknown idiom)")
     bare = []
     sites = 0
+    from ..lib import const_eval as _ce, _NoValue as _NV
+    unknown_atoms = []
     for tok, s_atom in toks.items():
         n_atom = tm.call(tm.func(MC + "is_number"), (tok,), ())
+        tids = {tid for e in r.calls("builtins.float")
+                if e.data["args"] and e.data["args"][0] is tok
+                for tid, _ in e.tries}
         matters = False
         for fm in formulas:
             if not any(x is s_atom for x in fm.walk()):
@@ -1129,9 +1300,37 @@ def _generate(ctx, prog):
             sites += 1
 
             def val(s_v, n_v):
-                # residual decision once this token's two atoms are fixed
-                return tm.restrict(fm, lambda t: s_v if t is s_atom else (
-                    n_v if t is n_atom else None))
+                # residual decision once everything this token decides is
+                # fixed: evaluated for a sample token of that class
+                sample = {(True, True): "-4", (False, True): "4",
+                          (False, False): "word", (True, False): "--opt"}[
+                              (s_v, n_v)]
+
+                def exc_(t):
+                    if t.op == "exc" and t.args[1] in tids:
+                        return not n_v
+                    return None
+
+                def assign(t):
+                    if t is s_atom:
+                        return s_v
+                    if t is n_atom:
+                        return n_v
+                    if t.op == "exc":
+                        return exc_(t)
+                    if any(x is tok for x in t.walk()) and (
+                            tids or t.op == "cmp") and not any(
+                            x.op in ("loopvar", "loopout") or (
+                                x.op == "call" and x.args[0].op == "func")
+                            for x in t.walk() if x is not n_atom):
+                        try:
+                            return bool(_ce(tm.deep_select(t, exc_),
+                                            {tok: sample}))
+                        except _NV:
+                            if not any(t is u for u in unknown_atoms):
+                                unknown_atoms.append(t)
+                    return None
+                return tm.restrict(fm, assign)
             neg_number, plain_number, word = val(True, True), \
                 val(False, True), val(False, False)
             option = val(True, False)
@@ -1142,7 +1341,12 @@ def _generate(ctx, prog):
         if not matters and tok not in bare:
             bare.append(tok)
     ok = not bare
-    ctx.ob("C18.7", g, ok,
+    if bare and unknown_atoms:
+        ctx.undecidable("C18.7", g, f"generate: token tests not evaluated: "
+                        f"{[fmt(a)[:60] for a in unknown_atoms[:3]]}")
+        ok = None
+    if ok is not None:
+      ctx.ob("C18.7", g, ok,
            f"generate: at all {sites} decisions a token is an option only "
            f"if it starts with '-' AND is not a number" if ok
            else f"generate treats {fmt(bare[0])} as an option whenever it "
@@ -1209,7 +1413,11 @@ def _generate(ctx, prog):
                   if len(bad) > 1 else ""),
                key="C18.7:key-is-name")
     # sibling: set_config and generate both produce int for integral tokens
-    ctx.ob("C18.7", g, has_int and has_float,
+    pr = _token_probe(prog, "generate") or {}
+    both = any(isinstance(x, int) and not isinstance(x, bool)
+               for v_ in pr.values() for x in v_ or ()) and \
+        any(isinstance(x, float) for v_ in pr.values() for x in v_ or ())
+    ctx.ob("C18.7", g, both,
            "generate and `set` agree on the numeric result types "
            "(int and float)", key="C18.7:sibling-types", nontrivial=False)
 
